@@ -124,6 +124,20 @@ fn import_script(k: ImportKind) -> &'static str {
     }
 }
 
+/// the error a failing import must report (prefix of the first line): the module's own error,
+/// every time it is imported - a failed import leaves nothing behind
+fn import_error_prefix(k: ImportKind) -> &'static str {
+    match k {
+        ImportKind::FailTop => "FT",
+        ImportKind::FailTest => "FTEST",
+        ImportKind::FailMain => "FMAIN",
+        ImportKind::Cycle => "recursive import of module",
+        ImportKind::BadSyntax => "expected expression",
+        ImportKind::Missing => "unable to find module 'nosuchmodule'",
+        _ => "",
+    }
+}
+
 fn import_expect(k: ImportKind) -> Result<&'static str, ()> {
     match k {
         ImportKind::Ok => Ok("1"),
@@ -915,6 +929,13 @@ pub fn evaluate(h: &History, ws: &HistWorkerState) -> HistEval {
                     && !e.contains(host::TIMEOUT_TEXT)
                 {
                     v = Some(("model:result".into(), format!("spin returned {e}")));
+                } else if let (Op::Import(k), Some(Err(e))) = (op, &obs.result)
+                    && !e.starts_with(import_error_prefix(*k))
+                {
+                    v = Some((
+                        "model:result".into(),
+                        format!("import of kind {k:?} must fail with `{}…`, got `{e}`", import_error_prefix(*k)),
+                    ));
                 }
             } else if let Some(val) = &expect_value
                 && obs.result != Some(Ok(val.clone()))
